@@ -182,3 +182,27 @@ Proof.
   - use_idx (split_on 46 full) 0 a Ha. use_idx (split_on 46 full) (len (split_on 46 full) - 1) b Hb. eauto.
   - use_idx (split_on 46 full) 0 b Hb. eauto.
 Qed.
+
+(* ---- admin/users/update.go *)
+Lemma ltrim_len s : len (ltrim s) <= len s.
+Proof. induction s as [|c r IH]; cbn [ltrim]; [lia|]. destruct (is_space c); unfold len in *; cbn [length]; lia. Qed.
+
+Lemma trim_nonempty s : len (trim s) <> 0 -> len s <> 0.
+Proof.
+  unfold trim. intros H E. apply H. assert (s = []) by (destruct s; [reflexivity|unfold len in E; cbn in E; lia]).
+  subst s. reflexivity.
+Qed.
+
+Lemma user_perms_no_panic ok : forall perms, user_perms false ok perms <> Panic.
+Proof.
+  induction perms as [|p r IH]; cbn [user_perms]; [discriminate|].
+  destruct (Z.eqb_spec (len (trim p)) 0) as [E|E]; [exact IH|].
+  apply trim_nonempty in E. pose proof (len_nonneg p).
+  use_idx p 0 c Hc.
+  assert (P : exists p', (if (c =? 43)%N || (c =? 45)%N then slice p 1 (len p) else Ok p) = Ok p').
+  { destruct (_ || _); [|eauto]. destruct (slice_ok p 1 (len p) ltac:(lia) ltac:(lia)) as [x [Hx _]]. eauto. }
+  destruct P as [p' Hp']. rewrite Hp'. cbn [bind]. destruct (ok p'); [exact IH|discriminate].
+Qed.
+
+Lemma user_perms_early_trim_refuted : exists ok perms, user_perms true ok perms = Panic.
+Proof. exists (fun _ => true), [[32%N]]. reflexivity. Qed.
